@@ -242,10 +242,12 @@ def playback(group, paths, harness, scratch_tag="pb"):
     p = subprocess.run(["bash", "-c", shell], cwd=cwd, env=env, capture_output=True, text=True,
                        timeout=max(900, group.get("timeout_s", 300) * 3))
     out = p.stdout + p.stderr
-    m = re.search(r"```\n?(/// Test generated.*?)```", out, re.S) or re.search(r"(#\[test\]\nfn kani_concrete_playback_.*?\n}\n)", out, re.S)
-    if not m:
+    # Kani prints one test per failed check AND one per satisfied cover: take a failed-check test
+    blocks = re.findall(r"(/// Test generated for harness.*?\n#\[test\]\nfn kani_concrete_playback_\w+\(\) \{.*?\n\}\n)", out, re.S)
+    blocks = [b for b in blocks if not re.search(r"Check for `cover`", b)] or []
+    if not blocks:
         return {"reproduced": None, "why": "no concrete playback test was generated", "tail": out[-1500:]}
-    test_src = m.group(1)
+    test_src = blocks[0]
     tname = re.search(r"fn (kani_concrete_playback_\w+)", test_src).group(1)
     # insert the test next to the harness (scratch copy only)
     short = harness.split("::")[-1]
